@@ -136,6 +136,14 @@ pub fn run(args: &[&str]) -> String {
                 if head.as_bytes()[1] == b'o' { d.operation.set_condition(v) } else { d.questionable.set_condition(v) }
                 out.push(format!("- - {}", state(&d)));
             }
+            b'b' | b'x' => {
+                // b<o|q>:<mask> set_condition_bits, x<o|q>:<mask> clear_condition_bits
+                let v: u16 = val.parse().unwrap();
+                d.hook_calls = 0;
+                let r = if head.as_bytes()[1] == b'o' { &mut d.operation } else { &mut d.questionable };
+                if head.as_bytes()[0] == b'b' { r.set_condition_bits(v) } else { r.clear_condition_bits(v) }
+                out.push(format!("- - {}", state(&d)));
+            }
             b't' => {
                 d.hook_calls = 0;
                 d.tst = if val == "N" { None } else { Some(parse_error(val)) };
